@@ -31,7 +31,6 @@ func process1Map(obj map[string]any, mergeFrom *Document, mergeFromDocs []*Docum
 	// Not copying obj before merge preserves the layering behavior that
 	// tests/merge-race relies upon.
 	if v, found := obj["$merge"]; found {
-		delete(obj, "$merge")
 		return process1MapMerge(obj, mergeFrom, mergeFromDocs, v, depth)
 	}
 
@@ -64,6 +63,14 @@ func process1MapMerge(obj map[string]any, mergeFrom *Document, mergeFromDocs []*
 		return nil, err
 	}
 
+	// Resolve the reference to a private copy while obj still carries the
+	// directive: the referenced subtree is never shared with or modified
+	// through obj, and a subtree merged into itself keeps referring to
+	// itself until the depth guard reports the cycle.
+	in = cloneTree(in)
+
+	delete(obj, "$merge")
+
 	next, err := mergeMap(obj, in)
 	if err != nil {
 		return nil, err
@@ -78,7 +85,7 @@ func process1MapReplace(obj map[string]any, mergeFrom *Document, mergeFromDocs [
 		return nil, err
 	}
 
-	return process1(next, mergeFrom, mergeFromDocs, depth)
+	return process1(cloneTree(next), mergeFrom, mergeFromDocs, depth)
 }
 
 func process1List(obj []any, mergeFrom *Document, mergeFromDocs []*Document, depth int) (any, error) {
@@ -139,7 +146,7 @@ func process1ListMerge(obj []any, mergeFrom *Document, mergeFromDocs []*Document
 		return nil, err
 	}
 
-	return mergeList(obj, in)
+	return mergeList(obj, cloneTree(in))
 }
 
 func process1ListReplace(obj []any, mergeFrom *Document, mergeFromDocs []*Document, m any, depth int) (any, error) {
@@ -148,7 +155,7 @@ func process1ListReplace(obj []any, mergeFrom *Document, mergeFromDocs []*Docume
 		return nil, err
 	}
 
-	return process1(next, mergeFrom, mergeFromDocs, depth)
+	return process1(cloneTree(next), mergeFrom, mergeFromDocs, depth)
 }
 
 func process1String(obj string, mergeFrom *Document, mergeFromDocs []*Document, depth int) (any, error) {
@@ -171,7 +178,7 @@ func process1StringMerge(obj string, mergeFrom *Document, mergeFromDocs []*Docum
 		return nil, err
 	}
 
-	return process1(in, mergeFrom, mergeFromDocs, depth)
+	return process1(cloneTree(in), mergeFrom, mergeFromDocs, depth)
 }
 
 func process1StringReplace(obj string, mergeFrom *Document, mergeFromDocs []*Document, depth int) (any, error) {
@@ -182,5 +189,5 @@ func process1StringReplace(obj string, mergeFrom *Document, mergeFromDocs []*Doc
 		return nil, err
 	}
 
-	return process1(in, mergeFrom, mergeFromDocs, depth)
+	return process1(cloneTree(in), mergeFrom, mergeFromDocs, depth)
 }
